@@ -198,7 +198,11 @@ class MultivariateNormal(TMultivariateNormal, Distribution):
             # Initialize using  __new__, so that we can skip __init__ and use scale_tril.
             new = self.__new__(type(self))
             new._islazy = False
-            new_scale_tril = self.__unbroadcasted_scale_tril.unsqueeze(dim)
+            # The cached scale_tril may have fewer batch dimensions than the distribution: expand it first,
+            # otherwise `dim` would refer to the wrong position.
+            scale_tril = self.__unbroadcasted_scale_tril
+            scale_tril = scale_tril.expand(self.batch_shape + scale_tril.shape[-2:])
+            new_scale_tril = scale_tril.unsqueeze(dim)
             super(MultivariateNormal, new).__init__(loc=new_loc, scale_tril=new_scale_tril)
             # Set the covar matrix, since it is always available for GPyTorch MVN.
             new.covariance_matrix = self.covariance_matrix.unsqueeze(dim)
